@@ -51,31 +51,50 @@ def table_oracle(rep):
     return seen
 
 
+def render(c):
+    try:
+        return D.text_of(D.impl_fn(c))
+    except Exception as e:
+        return 'raise ' + core.err_name(e)
+
+
+def twins_differ(a, b):
+    """a: text of X_nocancel, b: text of X on the same window.  The two must be identical except for the '_nocancel' suffix of
+    the CALL NAME (the text before the first '(' of the base rendering); whatever the arguments contain stays as it is."""
+    if a.startswith('raise') or b.startswith('raise'):
+        return a != b
+    i = b.find('(')
+    if i < 0:
+        return a.replace('_nocancel', '', 1) != b or '_nocancel' not in a
+    return a != b[:i] + '_nocancel' + b[i:]
+
+
 def twin_oracle(rep, rng, tier, names):
     sec = rep.section('twins')
-    sec['rule'] = ('failing-input search on the real code: every X_nocancel / X pair rendered on the same windows; texts must be '
-                   'equal after removing the first "_nocancel"')
+    sec['rule'] = ('failing-input search on the real code: every X_nocancel / X pair rendered on the same windows; the text of '
+                   'X_nocancel must be the text of X with "_nocancel" appended to the call name (the part before the first "(") '
+                   'and nothing else changed.  Windows: random ones, and windows whose looked-up paths / global strings contain '
+                   'the rendering\'s own syntax (decoders.syntax_paths: the call name + "(", twin and other decoders\' names, '
+                   '"_nocancel", quotes, ", ", ")", "errno: ", backslashes, placeholders, control characters, empty and very '
+                   'long paths)')
     per = 12 if tier == 'quick' else 300
-    for n in names:
+    every = sorted(names)
+    for n in every:
         if not n.endswith('_nocancel') or n[:-9] not in names:
             continue
         base = n[:-9]
-        for _ in range(per):
-            c = D.make_case(rng, n)
-            cb = dict(c, name=base)
-            try:
-                a = D.text_of(D.impl_fn(c))
-            except Exception as e:
-                a = 'raise ' + core.err_name(e)
-            try:
-                b = D.text_of(D.impl_fn(cb))
-            except Exception as e:
-                b = 'raise ' + core.err_name(e)
+        paths = D.syntax_paths(rng, n, [base] + rng.sample(every, 3), full=tier != 'quick')
+        cases = [D.make_case(rng, n) for _ in range(per)]
+        cases += [D.syntax_case(rng, n, pth, rng.choice(paths)) for pth in paths]
+        for c in cases:
+            a, b = render(c), render(dict(c, name=base))
             sec['cases'] += 1
             if not a.startswith('raise'):
                 sec['distinct_nontrivial'] += 1
-            if a.replace('_nocancel', '', 1) != b or ('_nocancel' not in a and not a.startswith('raise')):
-                rep.add_failure('twins:differ:' + n, '%r vs %r' % (a, b), {'section': 'twins', 'case': c, 'base': base})
+            if twins_differ(a, b):
+                rep.add_failure('twins:differ:' + n, '%s renders %r where %s renders %r: not the same text with "_nocancel" '
+                                'appended to the call name' % (n, a[:400], base, b[:400]),
+                                {'section': 'twins', 'case': c, 'base': base})
                 break
 
 
@@ -138,7 +157,8 @@ def correspondence(rep, rng, tier):
     seen = table_oracle(rep)
     dispatch_oracle(rep, rng, tier)
     names = [n for n in D.supported_names() if n.endswith('_nocancel') or (n + '_nocancel') in seen]
-    D.section_decoders(rep, rng, tier, names=names, name='decoders-twins', per=6 if tier == 'quick' else 80)
+    D.section_decoders(rep, rng, tier, names=names, name='decoders-twins', per=6 if tier == 'quick' else 80,
+                       syntax=6 if tier == 'quick' else 1000)
     twin_oracle(rep, rng, tier, set(D.all_handler_names()))      # every registered twin, translated or not
     st = D.stats()
     if st['total'] != len(seen):
@@ -162,13 +182,28 @@ def replay(path):
             dispatch_oracle(rep, random.Random(0), 'quick')
         finally:
             D.make_case, D.all_handler_names = saved, saved_names
+    elif rp.get('section', '').startswith('decoders'):
+        c = rp['case']
+        try:
+            got = D.impl_fn(c)
+        except Exception as e:
+            got = 'err ' + core.err_name(e)
+        print('impl :', got)
+        print('model:', core.drive([D.line(c)])[0])
+        if got.startswith('unstable'):
+            rep.add_failure('decoder:renders-differently', 'two renderings differ', rp)
     elif rp.get('section') == 'twins':
         c = rp['case']
-        a = D.text_of(D.impl_fn(c))
-        b = D.text_of(D.impl_fn(dict(c, name=rp['base'])))
-        print(a)
-        print(b)
-        if a.replace('_nocancel', '', 1) != b:
+        a, b = render(c), render(dict(c, name=rp['base']))
+        print('%-28s: %r' % (c['name'], a))
+        print('%-28s: %r' % (rp['base'], b))
+        if c['name'] in D.supported_names():
+            try:
+                m = core.drive([D.line(c)])[0]
+                print('%-28s: %r' % ('model of ' + c['name'], D.text_of(m) if m.startswith('ok ') else m))
+            except core.Infra as e:
+                print('model: <driver unavailable: %s>' % e)
+        if twins_differ(a, b):
             rep.add_failure('twins:differ', 'differ', rp)
     print([f['signature'] for f in rep.failures])
     if rep.failures:
